@@ -47,6 +47,7 @@ Hooks (subclass and override; all optional)
   global_name(eng, name, env) -> value | None        module-level names
   attribute(eng, base, node, env) -> value | None    attribute of a value
   branch(eng, test, env) -> True/False/None          static decision of an `if`
+  power(eng, node, base, exp, env) / constant(eng, node) -> value | None   re-type `b ** e` / a literal
   default_param(eng, fdef, name) -> value
 ProgramHooks(prog, attr_default="symbol"|"unknown")   ready-made hooks over sa.pyfacts.Program:
   resolves functions through imports, methods/properties/super() through the MRO, runs
@@ -481,6 +482,10 @@ class Hooks:
         """override the typing of base ** exp (e.g. literal 2 ** p as a symbol); None = default"""
         return None
 
+    def constant(self, eng, node):
+        """override the typing of a literal (e.g. powers of two as a symbol); None = default"""
+        return None
+
 
 # ----------------------------------------------------------------------------
 # engine
@@ -738,6 +743,9 @@ class _ExprMixin:
         return m(node, env)
 
     def _e_Constant(self, n, env):
+        r = self.hooks.constant(self, n)
+        if r is not None:
+            return r
         v = n.value
         if isinstance(v, bool) or v is None or isinstance(v, (str, bytes)) or v is Ellipsis:
             return K(v)
